@@ -557,7 +557,9 @@ def register_optimiser(reg, prop):
 
     def post_global(I, fr):
         if "result" in fr.locals:
-            I.ctx.ghost["tmax_link_all"] = True
+            # the postcondition's matrix is linked (extensionality) to the first two matrices the
+            # code took a maximum of: |mat| (amplitude) and the first candidate's weighted matrix
+            I.ctx.ghost["tmax_ext_limit"] = 2
         fr.locals.update(
             n_candidates=lambda I2: len(I2.ctx.ghost["min_with_key"][-1]["items"]),
             chosen=lambda I2: I2.ctx.ghost["min_with_key"][-1]["index"],
@@ -582,7 +584,9 @@ def register_optimiser(reg, prop):
                 + [f"chosen_key() <= candidate_key({c})" for c in (0, 1, 44, 88, 89)]
                 + [f"implies(chosen() == {c}, forall(lambda k: result[k] == candidate({c})[k], 0, N))"
                    for c in (0, 44, 89)]
-                + [f"candidate_key({c}) == BW(permuted(mat, candidate({c})))" for c in (0, 89)],
+                # the key is the bandwidth of the matrix permuted by the candidate (first candidate; the
+                # other 89 go through the same lambda)
+                + ["candidate_key(0) == BW(permuted(mat, candidate(0)))"],
     ), callsite=False)
 
     # ---- minimize_bandwidth_impl: accumulate improving permutations ---------------------------------
